@@ -1,10 +1,32 @@
-//! Kani harness over the real `push_js_string` of leptos_i18n (dynamic_load + ssr): the literal written for a
-//! string decodes (JSON / JavaScript string literal grammar) to the same characters and contains no `<`.
+//! Kani harnesses over the real `write_js_string` of leptos_i18n (dynamic_load + ssr), instantiated with an array
+//! sink (production uses `String`, whose `fmt::Write` is `push_str` / `push`): the literal written for a string
+//! decodes (JSON / JavaScript string literal grammar) to the same characters, contains no raw `<` and no raw
+//! U+2028 / U+2029. The loop over `value.chars()` is bounded per harness through `--unwindset` (number of
+//! characters + 1) by lib/kani_run.py; CBMC's unwinding assertion reports a bound that is too small.
 #![allow(dead_code)]
 
 #[cfg(kani)]
 mod proofs {
-    use leptos_i18n::__private::fetch_translations::verif_hooks::push_js_string;
+    use leptos_i18n::__private::fetch_translations::verif_hooks::write_js_string;
+    use core::fmt::Write;
+
+    const CAP: usize = 16;
+    struct Sink {
+        buf: [u8; CAP],
+        len: usize,
+    }
+    impl Write for Sink {
+        fn write_str(&mut self, s: &str) -> core::fmt::Result {
+            for b in s.bytes() {
+                if self.len >= CAP {
+                    return Err(core::fmt::Error);
+                }
+                self.buf[self.len] = b;
+                self.len += 1;
+            }
+            Ok(())
+        }
+    }
 
     fn hex(b: u8) -> Option<u32> {
         match b {
@@ -50,8 +72,8 @@ mod proofs {
                     }
                     _ => return None,
                 }
-            } else if b == b'"' || b < 0x20 {
-                return None; // unescaped quote or control character: not JSON
+            } else if b == b'"' || b < 0x20 || b == b'<' {
+                return None; // unescaped quote or control character: not JSON; raw `<`: could end the script element
             } else if b < 0x80 {
                 cp = b as u32;
                 i += 1;
@@ -62,6 +84,9 @@ mod proofs {
             } else if b >= 0xE0 {
                 if i + 2 >= end { return None; }
                 cp = ((b as u32 & 0x0f) << 12) | ((buf[i + 1] as u32 & 0x3f) << 6) | (buf[i + 2] as u32 & 0x3f);
+                if cp == 0x2028 || cp == 0x2029 {
+                    return None; // raw line separator inside a string literal
+                }
                 i += 3;
             } else if b >= 0xC0 {
                 if i + 1 >= end { return None; }
@@ -133,11 +158,11 @@ mod proofs {
             j += 1;
         }
         let s: &str = unsafe { core::str::from_utf8_unchecked(&bytes) };
-        let mut out_s = String::with_capacity(24);
-        push_js_string(&mut out_s, s);
-        let o = out_s.as_bytes();
-        let len = o.len();
-        assert!(len <= 24, "no regrowth");
+        let mut sink = Sink { buf: [0; CAP], len: 0 };
+        let r = write_js_string(&mut sink, s);
+        assert!(r.is_ok(), "writing failed");
+        let o = &sink.buf;
+        let len = sink.len;
         let mut out = [0u32; 2];
         let n = decode(o, len, &mut out);
         let want = if M == 0 { 1 } else { 2 };
@@ -146,55 +171,74 @@ mod proofs {
         if M != 0 {
             assert!(out[1] == scalar(&b), "second character does not survive");
         }
-        // nothing in the literal can end the script element or open a comment, no raw line separator
-        let mut k = 0;
-        while k < len {
-            assert!(o[k] != b'<', "raw < in the script");
-            if k + 2 < len {
-                assert!(!(o[k] == 0xE2 && o[k + 1] == 0x80 && (o[k + 2] == 0xA8 || o[k + 2] == 0xA9)), "raw U+2028/9");
-            }
-            k += 1;
-        }
         kani::cover!(N == 1 && a[0] == b'"', "quote reachable");
         kani::cover!(N == 1 && a[0] == b'<', "lt reachable");
-        core::mem::forget(out_s);
     }
 
     #[kani::proof]
-    #[kani::unwind(14)]
+    #[kani::unwind(8)]
     fn js_char_len1() {
         run::<1, 0, 1>();
     }
     #[kani::proof]
-    #[kani::unwind(14)]
+    #[kani::unwind(8)]
     fn js_char_len2() {
         run::<2, 0, 2>();
     }
     #[kani::proof]
-    #[kani::unwind(14)]
+    #[kani::unwind(8)]
     fn js_char_len3() {
         run::<3, 0, 3>();
     }
     #[kani::proof]
-    #[kani::unwind(14)]
+    #[kani::unwind(8)]
     fn js_char_len4() {
         run::<4, 0, 4>();
     }
     #[kani::proof]
-    #[kani::unwind(20)]
+    #[kani::unwind(8)]
     fn js_chars_1_1() {
         run::<1, 1, 2>();
     }
+    #[kani::proof]
+    #[kani::unwind(8)]
+    fn js_chars_1_3() {
+        run::<1, 3, 4>();
+    }
+    #[kani::proof]
+    #[kani::unwind(8)]
+    fn js_chars_3_1() {
+        run::<3, 1, 4>();
+    }
+    #[kani::proof]
+    #[kani::unwind(8)]
+    fn js_chars_2_1() {
+        run::<2, 1, 3>();
+    }
+    #[kani::proof]
+    #[kani::unwind(8)]
+    fn js_chars_1_2() {
+        run::<1, 2, 3>();
+    }
+    #[kani::proof]
+    #[kani::unwind(8)]
+    fn js_chars_4_1() {
+        run::<4, 1, 5>();
+    }
+    #[kani::proof]
+    #[kani::unwind(8)]
+    fn js_chars_1_4() {
+        run::<1, 4, 5>();
+    }
 
     #[kani::proof]
-    #[kani::unwind(14)]
+    #[kani::unwind(8)]
     fn witness_js_reaches_assert() {
         let a: [u8; 1] = kani::any();
         kani::assume(well_formed(&a));
         let s: &str = unsafe { core::str::from_utf8_unchecked(&a) };
-        let mut out_s = String::with_capacity(24);
-        push_js_string(&mut out_s, s);
-        assert!(out_s.len() == 3, "WITNESS: must be violated (escaped characters give longer literals)");
-        core::mem::forget(out_s);
+        let mut sink = Sink { buf: [0; CAP], len: 0 };
+        let _ = write_js_string(&mut sink, s);
+        assert!(sink.len == 3, "WITNESS: must be violated (escaped characters give longer literals)");
     }
 }
